@@ -62,6 +62,7 @@ pub fn kind_name(k: ErrorKind) -> &'static str {
         ErrorKind::AlreadyExists => "already-exists",
         ErrorKind::PermissionDenied => "permission-denied",
         ErrorKind::Other => "other",
+        ErrorKind::Connect => "connect",
         _ => "misc",
     }
 }
